@@ -206,6 +206,9 @@ func (e *env) genArgs(rt *rapid.T, specs []argSpec) []Arg {
 			}
 		case "value":
 			out[i] = Arg{Hex: hex.EncodeToString(refssz.Serialize(s.t, refssz.Random(rt, s.t, genOpts, label)))}
+			if s.t != nil && s.t.Kind == refssz.KContainer && rapid.IntRange(0, 2).Draw(rt, label+"_near") == 0 {
+				out[i].U = 1 + rapid.Uint64Range(0, 63).Draw(rt, label+"_near_field") // set rows: the stored value with one field changed
+			}
 		case "selvalue":
 			out[i] = Arg{U: 1 + rapid.Uint64Range(0, 40).Draw(rt, label+"_sel"), Hex: hex.EncodeToString(refssz.Serialize(s.t, refssz.Random(rt, s.t, genOpts, label)))}
 		}
